@@ -308,6 +308,72 @@ def model_runs(prop, tier):
     return runs
 
 
+SIM_SIZES = [(1, 1), (2, 3), (3, 3), (4, 8), (6, 7), (8, 8), (12, 12), (3, 25)]
+
+
+def sim_schedules(sd, faults, per_preset, first_id):
+    """Schedules drawn from the specification itself: TLC simulates SimKvass.tla (Kvass.tla + a history of the
+    externally driven steps) per option preset; the quiet tail is appended here."""
+    out = []
+    k = CY.MODEL_CONSTANTS
+    for pi, opts in enumerate(PRESETS):
+        gd = os.path.join(sd, 'sim%d' % pi)
+        os.makedirs(gd)
+        for f in os.listdir(sd):
+            if f.endswith('.tla'):
+                os.link(os.path.join(sd, f), os.path.join(gd, f))
+        o = '[maxHead |-> %d, maxProc |-> %d, minShard |-> %d, maxShard |-> %d, maxIdle |-> %d, noAlleviate |-> %s]' % (
+            opts['maxHead'], opts['maxProc'], opts['minShard'], opts['maxShard'], opts['maxIdle'], 'TRUE' if opts['noAlleviate'] else 'FALSE')
+        open(os.path.join(gd, 'MCSim.tla'), 'w').write(
+            '---- MODULE MCSim ----\nEXTENDS SimKvass\nOpts == %s\nSizeSet == {%s}\nNoneSet == {{}}\n====\n' % (
+                o, ', '.join('[series |-> %d, total |-> %d]' % z for z in SIM_SIZES)))
+        depth = 260
+        cfg = '''CONSTANTS
+  MinWait = %d
+  HeadReliefChecksProc = %s
+  TooBigUsesTotal = %s
+  EarlyByShardCount = %s
+  TailNeedsEmpty = %s
+  TooBigFirst = %s
+  TieBreakByOrder = %s
+  RevertOrphanTransfer = %s
+  InputSet = {}
+  Targets = {%s}
+  MaxN = %d
+  KOpts <- Opts
+  Sizes <- SizeSet
+  MaxClock = 3
+  FaultBudget = %d
+  EnvBudget = 6
+  InitDisc <- NoneSet
+  OutFile = "sched.ndjson"
+  Depth = %d
+SPECIFICATION SSpec
+INVARIANT Export
+CHECK_DEADLOCK FALSE
+''' % (k['MinWait'], k['HeadReliefChecksProc'], k['TooBigUsesTotal'], k['EarlyByShardCount'], k['TailNeedsEmpty'], k['TooBigFirst'], k['TieBreakByOrder'],
+       k['RevertOrphanTransfer'], ', '.join(str(t) for t in range(1, NT + 1)), MAXN, 2 if faults else 0, depth)
+        open(os.path.join(gd, 'sched.ndjson'), 'w').close()
+        res = C.tlc(gd, 'MCSim', 'sim.cfg', cfg_text=cfg, workers=1, simulate='num=%d' % per_preset, depth=depth, timeout=1200)
+        C.require_ok(res, 'MCSim (schedules)')
+        for r in C.read_ndjson(os.path.join(gd, 'sched.ndjson')):
+            st = [dict(x) for x in r['steps']]
+            for x in st:
+                x['modes'], x['postFail'], x['place'] = list(x['modes']), list(x['postFail']), [dict(p) for p in x['place']]
+            quiet_from = len(st) + 1
+            # a target that is down stays down; one that is discovered stays discovered
+            for t in range(1, NT + 1):
+                st.append(step('probe', t=t))
+            for _ in range(QUIET_ROUNDS):
+                st.append(step('cycle'))
+                for _k in range(3):
+                    for i in range(1, MAXN + 1):
+                        st.append(step('scrape', i=i))
+            out.append(dict(id=first_id + len(out), nsh0=1, nt=NT, opts=opts, sizes=[dict(series=z['series'], total=z['total']) for z in r['sizes']],
+                            steps=st, quietFrom=quiet_from, expectConverge=True, origin='tlc-simulation'))
+    return out
+
+
 def run_loop(prop, tier, scratch, faults, replay=None):
     kvh = C.build_harness(scratch)
     sd = C.stage_specs(scratch)
@@ -317,6 +383,7 @@ def run_loop(prop, tier, scratch, faults, replay=None):
         scheds = [json.load(open(replay))['schedule']]
     else:
         scheds = [gen_schedule(rnd, i + 1, faults) for i in range(n)]
+        scheds += sim_schedules(sd, faults, 10 if tier == 'quick' else 100, n + 1)
     sf = os.path.join(sd, 'scheds.ndjson')
     C.write_ndjson(sf, scheds)
     of = os.path.join(sd, 'loopobs.ndjson')
